@@ -293,6 +293,8 @@ def _negative(cond: S) -> bool:
 
 
 def mk_if(cond: S, then: tuple, orelse: tuple) -> S:
+    if orelse and not then:
+        return ("if", mk_not(cond), orelse, ())        # a conditional with one arm has that arm first
     if orelse and _negative(cond):
         return ("if", mk_not(cond), orelse, then)
     if cond == K_TRUE:
@@ -798,6 +800,10 @@ class Canon:
             bound = self._bind_call(e, args, kwargs)
             if bound is not None:
                 args, kwargs = bound
+        # sum([e for ...]) == sum(e for ...): a consumer that walks its argument once does not care whether the list is built first
+        if isinstance(fn, tuple) and fn[:1] == ("g",) and fn[1] in ("sum", "any", "all", "min", "max", "sorted", "set", "frozenset", "tuple", "list", "dict") \
+                and len(args) >= 1 and isinstance(args[0], tuple) and args[0][:2] == ("comp", "list"):
+            args = [("comp", "gen") + tuple(args[0][2:])] + list(args[1:])
         # range(0, n) == range(n)
         if fn == ("g", "range") and len(args) == 2 and args[0] == k_num(0):
             args = [args[1]]
@@ -1274,13 +1280,27 @@ def _has_bound(s: S) -> bool:
     return False
 
 
-def _shift_bound(s: S, by: int) -> S:
-    """bound-variable references of a term that is moved ``by`` comprehension levels inwards"""
+def _shift_bound(s: S, by: int, level: int = 0) -> S:
+    """the free bound-variable references of a term that is moved ``by`` comprehension levels inwards (references bound
+    by a comprehension / lambda inside the term itself stay as they are)"""
     if isinstance(s, tuple):
         if len(s) == 3 and s[0] == "b" and isinstance(s[1], int):
-            return ("b", s[1] + by, s[2])
-        return tuple(_shift_bound(x, by) for x in s)
+            return ("b", s[1] + by, s[2]) if s[1] > level else s
+        if s and s[0] in ("comp", "lambda"):
+            return tuple(_shift_bound(x, by, level + 1) for x in s)
+        return tuple(_shift_bound(x, by, level) for x in s)
     return s
+
+
+def _free_bound(s: S, level: int = 0) -> bool:
+    """does the term refer to a variable of a comprehension / lambda that encloses it?"""
+    if isinstance(s, tuple):
+        if len(s) == 3 and s[0] == "b" and isinstance(s[1], int):
+            return s[1] > level
+        if s and s[0] in ("comp", "lambda"):
+            return any(_free_bound(x, level + 1) for x in s)
+        return any(_free_bound(x, level) for x in s)
+    return False
 
 
 def copy_sigma(sg: "Sigma", raw_subst: dict) -> "Sigma":
@@ -1690,7 +1710,7 @@ class Normalizer:
         def fresh():
             nums[0] += 1
             return ("v", 500 + nums[0])
-        block = _index_loops(_param_versions(_if_convert(_ret_peephole(_query_loops(_pair_iteration(_unfold_list_comps(raw_block, fresh)))))))
+        block = _index_loops(_param_versions(_if_convert(_ret_peephole(_query_loops(_pair_iteration(_unfold_list_comps(_fuse_comps(raw_block), fresh)))))))
         block, aliases = _store_aliases(block)
         if aliases:
             self.rounds.append(aliases)
@@ -2024,11 +2044,11 @@ def _unfold_list_comps(block: tuple, fresh) -> tuple:
 
     def simple(comp):
         return isinstance(comp, tuple) and comp[:2] == ("comp", "list") and len(comp[3]) == 1 and len(comp[2]) == 1 \
-            and not atoms_of(comp[2][0], lambda x: x[0] in ("comp", "lambda")) and not atoms_of(comp[3][0][2], lambda x: x[0] in ("comp", "lambda"))
+            and not atoms_of((comp[2][0], comp[3][0][2]), lambda x: x[0] == "lambda")
 
     def simple_dict(comp):
         return isinstance(comp, tuple) and comp[:2] == ("comp", "dict") and len(comp[3]) == 1 and len(comp[2]) == 2 \
-            and not atoms_of(comp[2], lambda x: x[0] in ("comp", "lambda")) and not atoms_of(comp[3][0][2], lambda x: x[0] in ("comp", "lambda"))
+            and not atoms_of((comp[2], comp[3][0][2]), lambda x: x[0] == "lambda")
     out = []
     for st in block:
         if isinstance(st, tuple) and st:
@@ -2060,6 +2080,34 @@ def _unfold_list_comps(block: tuple, fresh) -> tuple:
                         items.append(x)
                 out.append(("ret", ("tuple", tuple(items))))
                 continue
+            if st[0] in ("expr", "set", "aug") and len(st) in (2, 3, 4):
+                # a list / dict comprehension that is built as part of a larger value (an item of a tuple that is appended, an
+                # argument) is collected first, into a local of its own
+                pre: list = []
+
+                def hoist(x, item=False):
+                    if not isinstance(x, tuple) or not x:
+                        return x
+                    if x[0] in ("lambda", "ite", "and", "or") or (x[0] == "comp" and not (simple(x) or simple_dict(x))):
+                        return x
+                    if x[0] == "comp":
+                        # only as an item of a tuple / list / dict display (a record that is being put together)
+                        if not item or _free_bound(x):
+                            return x
+                        t = fresh()
+                        pre.append(("set", t, ("list", ()) if x[1] == "list" else ("dict", ())))
+                        pre.append(loop(t, x))
+                        return t
+                    if x[0] in ("tuple", "list") and len(x) == 2:
+                        return (x[0], tuple(hoist(y, True) for y in x[1]))
+                    if x[0] == "dict" and len(x) == 2:
+                        return ("dict", tuple((hoist(k, False), hoist(v, True)) for k, v in x[1]))
+                    return tuple(hoist(y, False) for y in x)
+                val_idx = len(st) - 1
+                new_val = hoist(st[val_idx])
+                if pre:
+                    out.extend(pre)
+                    st = st[:val_idx] + (new_val,)
             if st[0] == "if" and len(st) == 4:
                 st = ("if", st[1], _unfold_list_comps(st[2], fresh), _unfold_list_comps(st[3], fresh))
             elif st[0] == "for" and len(st) == 5:
@@ -2072,7 +2120,7 @@ def _unfold_list_comps(block: tuple, fresh) -> tuple:
 
 def _simple_comp(c) -> bool:
     return isinstance(c, tuple) and len(c) == 4 and c[0] == "comp" and c[1] in ("gen", "list") and len(c[3]) == 1 and len(c[2]) == 1 \
-        and not atoms_of((c[2], c[3][0][2]), lambda x: x[0] in ("comp", "lambda"))
+        and not _free_bound(c)
 
 
 def _match_target(tgt, e) -> Optional[dict]:
@@ -2104,13 +2152,13 @@ def _fuse_comps(x):
     if not isinstance(x, tuple):
         return x
     x = tuple(_fuse_comps(y) for y in x)
-    if len(x) == 4 and x[0] == "comp" and len(x[3]) == 1 and _simple_comp(x[3][0][1]) \
-            and not atoms_of((x[2], x[3][0][2]), lambda y: y[0] in ("comp", "lambda")):
+    if len(x) == 4 and x[0] == "comp" and len(x[3]) == 1 and _simple_comp(x[3][0][1]):
         tgt, inner, cond = x[3][0]
         mp = _match_target(tgt, inner[2][0])
         if mp is not None and all(k[0] == "b" for k in mp):
             tgt2, it2, cond2 = inner[3][0]
-            x = ("comp", x[1], _renorm(_plain_subst(x[2], mp)), ((tgt2, it2, mk_and([cond2, _renorm(_plain_subst(cond, mp))])),))
+            sg = Sigma(raw_subst=mp)
+            x = ("comp", x[1], tuple(sg.apply(e) for e in x[2]), ((tgt2, it2, mk_and([cond2, sg.apply(cond)])),))
     return x
 
 
@@ -2140,9 +2188,10 @@ def _fuse_loops(block: tuple, fresh) -> tuple:
                                        or (y[0] == "aug" and len(y) == 4 and mp is not None and y[2] in mp))
                     if mp is not None and bvars is not None and not rebound and not st[4]:
                         new = {b: fresh() for b in bvars}
-                        mp2 = {k: _plain_subst(v, new) for k, v in mp.items()}
-                        body = _renorm(_plain_subst(st[3], mp2))
-                        c2 = _renorm(_plain_subst(cond2, new))
+                        sgn = Sigma(raw_subst=new)
+                        mp2 = {k: sgn.apply(v) for k, v in mp.items()}
+                        body = Sigma(raw_subst=mp2).apply(st[3])
+                        c2 = sgn.apply(cond2)
                         if c2 != K_TRUE:
                             body = (("if", c2, tuple(body), ()),)
                         st = ("for", _plain_subst(tgt2, new), it2, tuple(body), ())
